@@ -1,4 +1,4 @@
 (* Extraction of the C15 model + monitor. ExtrOcamlBasic only; Z/nat/string stay Coq datatypes. *)
 From Coq Require Import Extraction ExtrOcamlBasic ZArith String.
 From Ice Require Import Model.ConvTypes Model.PrioSpec Model.TcpMux Model.TcpMuxSpec.
-Extraction "model.ml" conv_witness init step run settle deliverable hold_of raddr_of classify C15_checks C15_monitor failed all_ok.
+Extraction "model.ml" conv_witness init step run settle deliverable hold_of raddr_of phase_routed classify C15_checks C15_monitor failed all_ok.
